@@ -7,6 +7,7 @@
 From Coq Require Import List Bool ZArith Reals QArith.
 Require Import QV.Common.Outcome QV.Common.Geo3 QV.Common.Geo3Np QV.Common.Geo3Facts QV.Common.Geo3R QV.Common.Geo3Q.
 Require Import QV.Gen.Dihedral QV.Model.Geometry QV.Proofs.Geometry QV.Proofs.GeometryR.
+Require Import QV.Common.Geo3Glue QV.Gen.GeoGlue QV.Proofs.GeoGlue.
 Import ListNotations.
 
 (** * Part A: any field *)
@@ -171,6 +172,20 @@ Theorem C18_connectivity_relabel : forall (K : Fops), is_field K -> forall (thr 
   (listed (guess_connectivity K thr atoms') i j <-> listed (guess_connectivity K thr atoms) (s i) (s j)).
 Proof. intros K Kf. apply (connectivity_relabel K Kf). Qed.
 
+(** the glue translated from the sources (Gen/GeoGlue.v: the bond test of guess_connectivity's loop body with its operands,
+    comparison and threshold; the entry expression of distance_matrix; the bounds test and the len(m) -> kernel chain of
+    measure_coordinates, incl. which kernels receive `degrees` and the error kinds) is, for all inputs, the hand model that
+    the theorems above and below are about *)
+Theorem C18_generated_glue_is_model : forall (K : Fops), is_field K ->
+  (forall thr atoms, guess_connectivity_gen K thr atoms = guess_connectivity K thr atoms)
+  /\ (forall a b, distance_matrix_gen K a b = distance_matrix K a b)
+  /\ (forall V f_dist f_ang f_dih coords degrees m,
+        measure_via K V f_dist f_ang f_dih coords degrees m = measure_one K V f_dist f_ang f_dih coords degrees m).
+Proof.
+  intros K Kf. split; [intros; apply (connectivity_gen_is_model K)|]. split; [intros; apply (distance_matrix_gen_is_model K)|].
+  intros. apply measure_via_is_model.
+Qed.
+
 (** * Part B: the real numbers *)
 Local Open Scope R_scope.
 
@@ -295,6 +310,7 @@ Print Assumptions C18_distance_matrix_entry.
 Print Assumptions C18_connectivity_spec.
 Print Assumptions C18_connectivity_rigid_invariant.
 Print Assumptions C18_connectivity_relabel.
+Print Assumptions C18_generated_glue_is_model.
 Print Assumptions C18_angle_R_is_textbook.
 Print Assumptions C18_angle_R_range.
 Print Assumptions C18_distance_R.
